@@ -51,11 +51,22 @@ class FalsyBoom(Boom):
         return False
 
 
+class EqBoom(Boom):
+    """An exception type with value semantics: all instances compare equal.  Two children failing with equal errors are
+    still two failures - nothing may be de-duplicated with == or `in`."""
+
+    def __eq__(self, other):
+        return isinstance(other, EqBoom)
+
+    def __hash__(self):
+        return 17
+
+
 BOOMS = (Boom, BaseBoom)
 
 
 def make_boom(eid):
-    return BaseBoom(eid) if eid % 5 == 0 else FalsyBoom(eid) if eid % 7 == 3 else Boom(eid)
+    return BaseBoom(eid) if eid % 5 == 0 else FalsyBoom(eid) if eid % 7 == 3 else EqBoom(eid) if eid % 3 == 1 else Boom(eid)
 
 
 # ------------------------------------------------------------------------------------------
@@ -235,6 +246,9 @@ class SCRun:
         self.active = {}                # sid -> CancelScope / ('H', handle)  (polled)
         self.started_objs = {}
         self.fail_scopes = set()
+        self.dl = {}
+        self.dl_due = {}
+        self.dl_reported = set()
         self.lingerers = {}
         self.ncancelled = {}
         self.foreign = set()            # ids of CancelledError objects raised by the program itself (not AnyIO's)
@@ -282,6 +296,17 @@ class SCRun:
                         cs[sid] = seq
                 elif sc.cancel_called:
                     cs[sid] = seq
+                elif self.prop == "C03":
+                    # "cancelled explicitly or by its deadline": an active scope whose deadline (as last assigned by the
+                    # program) lies in the past must have been cancelled by the next loop cycle but one
+                    d = self.dl.get(sid)
+                    if d is not None and self.loop._vnow >= d:
+                        due = self.dl_due.setdefault(sid, self.loop.iterations)
+                        if self.loop.iterations - due >= 3 and sid not in self.dl_reported:
+                            self.dl_reported.add(sid)
+                            self.v("C03.deadline_missed", f"scope {sid} is active, its deadline {d} has been in the past for "
+                                                          f"{self.loop.iterations - due} loop cycles (now {self.loop._vnow}) and "
+                                                          f"it has not been cancelled")
 
     def rec(self, kind, tid, **kw):
         lp = self.loop
@@ -473,6 +498,8 @@ class SCRun:
                     self.rec("deadlineset", tid, target=s[1], val=s[2])
                     sc.deadline = float("inf") if s[2] == "inf" else self.loop.time() + s[2]
                     self.faults["deadline_move"] += 1
+                    self.dl[s[1]] = None if s[2] == "inf" else sc.deadline
+                    self.dl_due.pop(s[1], None)
                     self.poll()     # a deadline that is already due cancels the scope inside the setter: that instant is
                     #                 this record, not the next one (which may be a shield toggle)
             elif k == "raise":
@@ -586,6 +613,8 @@ class SCRun:
             sc = CancelScope(shield=opts["shield"], **kw)
         if sc is not None:
             self.scopes[sid] = sc
+        if kw:
+            self.dl[sid] = kw["deadline"]
         self.shield_tl[sid].append((self.seq, opts["shield"]))
         if opts["pre"]:
             self.rec("precancel", tid, target=sid)
